@@ -8,11 +8,11 @@ package main
 // gated single-assignment expressions. No path is ever executed.
 
 import (
-	"os"
 	"fmt"
 	"go/constant"
 	"go/token"
 	"go/types"
+	"os"
 	"strings"
 
 	"golang.org/x/tools/go/ssa"
